@@ -177,7 +177,12 @@ def part_a(ck, hist, tag, pack=None, model=True):
     root = os.path.join(ck.tmp, 'a-' + tag)
     if os.path.exists(root):
         shutil.rmtree(root)
-    rr = L.run_history(hist, root, pack_after=pack, referencesf=referencesf)
+    try:
+        rr = L.run_history(hist, root, pack_after=pack, referencesf=referencesf)
+    except Exception as e:
+        return dict(violations=[('C09:history-raised', 'executing the history%s raised %s: %s' % (
+            ' and the pack' if pack is not None else '', type(e).__name__, str(e)[:160]),
+            dict(history=hist, pack=pack))], lines=[], checks={}, hist=hist)
     oids, tids = c01.history_oids_tids(hist)
     wd = os.path.join(ck.tmp, 'wd')
     viol = []
@@ -585,7 +590,12 @@ def main(argv=None):
     # ---- read-only sessions
     api_lines = []
     for i in range(nro):
-        viol, line, exp, mode, calls = ro_session(ck, ck.rng, i)
+        try:
+            viol, line, exp, mode, calls = ro_session(ck, ck.rng, i)
+        except Exception as e:
+            ck.violation('C09:ro-session-raised', 'setting up / running read-only session %d raised %s: %s'
+                         % (i, type(e).__name__, str(e)[:160]), dict(mode='session', index=i))
+            continue
         ck.count('ro-mode:' + mode)
         nwrites = sum(1 for c in calls if c in REFUSALS)
         ck.case(['ro', i, mode, calls], nwrites >= 1,
